@@ -173,6 +173,14 @@ def _get_process_streams_in_each_subzone(
 ) -> Zone:
     """Extracts all stream data into class instances, creates the required subzones and adds these to the parent zone."""
 
+    def _all_zone_paths(zone: Zone, prefix: str = ""):
+        path = f"{prefix}/{zone.name}" if prefix else zone.name
+        yield path
+        for subzone in zone.subzones.values():
+            yield from _all_zone_paths(subzone, path)
+
+    known_full_paths = set(_all_zone_paths(master_zone))
+
     streams_by_full_path = defaultdict(list)
     streams_by_relative_path = defaultdict(list)
     for stream in streams:
@@ -180,6 +188,9 @@ def _get_process_streams_in_each_subzone(
         if not zone_path:
             continue
         streams_by_full_path[zone_path].append(stream)
+        if zone_path in known_full_paths:
+            # Fully-qualified label: never match it again by suffix.
+            continue
         path_components = zone_path.split("/")
         for idx in range(1, len(path_components)):
             relative_key = "/".join(path_components[idx:])
